@@ -96,8 +96,12 @@ def _check_json(path, v):
     _fail(path, f"`default` is not a JSON value: {v!r}")
 
 
-def normalise(node, path=()):
-    """One schema node (a YAML mapping) -> plain dict with exactly the modelled fields."""
+def normalise(node, path=(), strict=True):
+    """One schema node (a YAML mapping) -> plain dict with exactly the modelled fields.
+    strict=False (used only by the spec GENERATORS of the plugin, so that the real code can still be
+    fuzzed when the translation fails) skips what is not modelled instead of raising."""
+    if not strict:
+        return _normalise_lenient(node, path)
     path = list(path)
     if not isinstance(node, dict):
         _fail(path, f"schema node must be a mapping, got {node!r}")
@@ -149,6 +153,26 @@ def normalise(node, path=()):
     return out
 
 
+def _normalise_lenient(node, path):
+    if not isinstance(node, dict):
+        return normalise({}, path)
+    out = normalise({}, path)
+    for key, v in node.items():
+        if key == "properties" and isinstance(v, dict):
+            out["props"] = [(pk, _normalise_lenient(pv, list(path) + [pk])) for pk, pv in v.items() if isinstance(pk, str)]
+        elif key == "items":
+            out["items"] = _normalise_lenient(v, list(path) + ["items"])
+        else:
+            try:
+                one = normalise({key: v}, path)
+            except SchemaTranslationError:
+                continue
+            for f, val in one.items():
+                if f not in ("props", "items") and val != normalise({}, path)[f]:
+                    out[f] = val
+    return out
+
+
 def load_spec_schemas(schema_dir: Path | None = None) -> dict[str, dict]:
     """kind -> the raw `openAPIV3Schema.properties.spec` mapping, found the way koreo.schema finds it."""
     schema_dir = schema_dir or (common.SRC / "koreo" / "schema")
@@ -177,8 +201,8 @@ def load_spec_schemas(schema_dir: Path | None = None) -> dict[str, dict]:
     return found
 
 
-def load_normalised(schema_dir: Path | None = None) -> dict[str, dict]:
-    return {k: normalise(v, [k]) for k, v in load_spec_schemas(schema_dir).items()}
+def load_normalised(schema_dir: Path | None = None, strict=True) -> dict[str, dict]:
+    return {k: normalise(v, [k], strict=strict) for k, v in load_spec_schemas(schema_dir).items()}
 
 
 # ---- Gallina printing ---------------------------------------------------------
